@@ -297,7 +297,7 @@ func copyVariants(rng *Rng, hosts []string, retries int) [][]HostScript {
 		}
 		return out
 	}
-	huge := bigBody(1 << 20)
+	huge := bigBody(256 << 10)
 	vs := [][]HostScript{
 		mk(func(h string) []Behaviour { return []Behaviour{okResp("copy ok")} }),
 		mk(func(h string) []Behaviour { return []Behaviour{{Err: true}} }),
@@ -315,7 +315,7 @@ func copyVariants(rng *Rng, hosts []string, retries int) [][]HostScript {
 			return []Behaviour{{Status: 302, Hdrs: []KV{{"Location", "http://elsewhere.test/"}}, Body: ""}}
 		}),
 	}
-	if rng.Chance(10, 100) {
+	if rng.Chance(2, 100) {
 		vs = append(vs, mk(func(h string) []Behaviour { return []Behaviour{{Status: 200, Hdrs: []KV{{"Content-Type", "application/octet-stream"}}, Body: huge}} }))
 	}
 	return vs
